@@ -183,7 +183,9 @@ pub fn case(idx: u64, seed: u64, p: &Params, o: &mut CaseOut) {
 
     if n <= 24 && src.len() == 1 && m.size() % 6 == 1 {
         crate::obs::iter_consistency(o, "Dijkstra", || Dijkstra::new(&d, src.iter().copied()));
+        crate::obs::clone_midway(o, "Dijkstra", || Dijkstra::new(&d, src.iter().copied()));
         crate::obs::iter_consistency(o, "DijkstraDist", || DijkstraDist::new(&d, src.iter().copied()));
+        crate::obs::clone_midway(o, "DijkstraDist", || DijkstraDist::new(&d, src.iter().copied()));
     }
     let sup = superseded_pop(&m, &src);
     let mut fp = Fp::new();
